@@ -166,6 +166,9 @@ def read_tree(tree, ids):
     for dp, dns, fns in os.walk(tree.root):
         for fn in fns:
             p = os.path.join(dp, fn)
+            if os.path.islink(p) and not os.path.exists(p):
+                out.append([segs(p), -3])            # a link that points nowhere: an entry without content
+                continue
             with open(p, 'rb') as f: data = f.read()
             if fn.endswith('.tar'):
                 try:
